@@ -479,6 +479,7 @@ type vfCFDisp struct {
 
 func (d *vfCFDisp) Query(reqs []*query.Request, options ...query.QueryOption) chan error {
 	d.e.reqs = reqs
+	d.e.fin = map[uint32]bool{}
 	d.e.errChan = make(chan error, 1)
 	d.e.ev <- vfCFEvent{kind: "gate", gate: "query"}
 	return d.e.errChan
@@ -513,6 +514,7 @@ type vfCFEnv struct {
 	hwg     sync.WaitGroup
 	gid     string // goroutine id of the running getCheckpointedCFHeaders
 	reqs    []*query.Request
+	fin     map[uint32]bool // batched requests already answered
 	errChan chan error
 	stackBf []byte
 
@@ -1388,6 +1390,7 @@ func (e *vfCFEnv) exec(a vfCFAct) (string, error) {
 		if !prog.Finished {
 			return "rej", nil
 		}
+		e.fin[req.Req.(*wire.MsgGetCFHeaders).StartHeight] = true
 		ev, err := e.waitParked()
 		if err != nil {
 			return "", err
@@ -1505,18 +1508,32 @@ func (e *vfCFEnv) mustAnswer(q string) []int {
 	return rs
 }
 
-// autoContinue is used after the code left the model's prediction in the
-// middle of a call: the remaining steps of the path no longer apply, but the
-// call in flight is driven to its end (every peer that always answers does,
-// the block is served) so that what it does is still observed and judged.
-func (e *vfCFEnv) autoContinue(out *vfCFPathOut) {
-	for n := 0; n < 12; n++ {
-		a := vfCFAct{Rs: []int{}}
+// autoRun is used after the code left the model's prediction: the remaining
+// steps of the path no longer apply, so the driver lets the handler run on by
+// itself for a few steps (cfHandler's own order of calls; every peer that
+// always answers does, blocks are served, batched requests are answered by
+// the unbanned peers, liars first) so that what the code does next is still
+// observed and judged.
+func (e *vfCFEnv) autoRun(out *vfCFPathOut) {
+	for n := 0; n < 14; n++ {
+		var cands []vfCFAct
+		mk := func(op string) vfCFAct { return vfCFAct{Op: op, Rs: []int{}} }
 		switch e.pc {
+		case "top":
+			cands = []vfCFAct{mk("Begin")}
+		case "loop":
+			g := mk("GcSend")
+			g.Hi = e.w.modelCeil(int(e.lastH))
+			cands = []vfCFAct{mk("LoopRestart"), g, mk("RStart")}
+		case "resolve":
+			cands = []vfCFAct{mk("RStart")}
 		case "q_cp":
-			a.Op, a.Rs, a.Hi = "GetCheckpts", e.mustAnswer("cp"), e.w.modelCeil(int(e.lastH))
+			a := mk("GetCheckpts")
+			a.Rs, a.Hi = e.mustAnswer("cp"), e.w.modelCeil(int(e.lastH))
+			cands = []vfCFAct{a}
 		case "r_cfh", "u_cfh":
-			a.Op, a.Rs = strings.ToUpper(e.pc[:1])+"Cfh", e.mustAnswer("cfh")
+			a := mk(strings.ToUpper(e.pc[:1]) + "Cfh")
+			a.Rs = e.mustAnswer("cfh")
 			if q, ok := e.gate.msg.(*wire.MsgGetCFHeaders); ok {
 				a.Lo = e.w.modelCeil(int(q.StartHeight))
 				a.Hi = a.Lo
@@ -1524,22 +1541,68 @@ func (e *vfCFEnv) autoContinue(out *vfCFPathOut) {
 					a.Hi = e.w.modelCeil(r)
 				}
 			}
+			cands = []vfCFAct{a}
 		case "r_flt", "u_flt":
-			a.Op, a.Rs = strings.ToUpper(e.pc[:1])+"Flt", e.mustAnswer("flt")
+			a := mk(strings.ToUpper(e.pc[:1]) + "Flt")
+			a.Rs = e.mustAnswer("flt")
+			cands = []vfCFAct{a}
 		case "r_blk", "u_blk":
-			a.Op, a.N = strings.ToUpper(e.pc[:1])+"Blk", 1
+			a := mk(strings.ToUpper(e.pc[:1]) + "Blk")
+			a.N = 1
+			cands = []vfCFAct{a}
+		case "cp":
+			cands = []vfCFAct{mk("CPStart")}
 		case "cp_wait":
-			a.Op = "CPEnd"
+			var req *wire.MsgGetCFHeaders
+			for _, r := range e.reqs {
+				q := r.Req.(*wire.MsgGetCFHeaders)
+				if !e.fin[q.StartHeight] && (req == nil || q.StartHeight < req.StartHeight) {
+					req = q
+				}
+			}
+			peers := e.mustAnswer("cfh")
+			pick := 0
+			for _, p := range peers {
+				if e.kind(p) != "H" {
+					pick = p
+					break
+				}
+			}
+			if pick == 0 && len(peers) > 0 {
+				pick = peers[0]
+			}
+			if req == nil || pick == 0 {
+				cands = []vfCFAct{mk("CPEnd")}
+				break
+			}
+			a := mk("CPDeliver")
+			a.J, a.P = int(req.StartHeight-1)/1000, pick
+			a.Lo = e.w.modelCeil(int(req.StartHeight))
+			a.Hi = a.Lo
+			if _, r, ok := e.locate(req.StopHash); ok {
+				a.Hi = e.w.modelCeil(r)
+			}
+			cands = []vfCFAct{a}
+		case "tip":
+			cands = []vfCFAct{mk("UStart")}
 		default:
 			return
 		}
-		res, err := e.exec(a)
-		if err != nil {
+		done := false
+		for _, a := range cands {
+			res, err := e.exec(a)
+			if err != nil {
+				continue
+			}
+			a.Res = res
+			out.Steps = append(out.Steps, vfCFStepOut{Act: a, Obs: e.observe(),
+				Note: "handler left to run on after the deviation"})
+			done = true
+			break
+		}
+		if !done {
 			return
 		}
-		a.Res = res
-		out.Steps = append(out.Steps, vfCFStepOut{Act: a, Obs: e.observe(),
-			Note: "call in flight continued after the deviation"})
 	}
 }
 
@@ -1677,7 +1740,7 @@ func vfCFRunOnce(w *vfCFWorld, p vfCFPathIn) (out vfCFPathOut) {
 			// deviation from the model's prediction: the remaining steps
 			// of this path presuppose the predicted state, stop here
 			out.Stopped = fmt.Sprintf("step %d deviates from the model", i+1)
-			e.autoContinue(&out)
+			e.autoRun(&out)
 			return
 		}
 	}
